@@ -375,7 +375,7 @@ def run(ctx):
     from vlib import env
     rec = ctx.rec
     sdir = env.scratch()
-    n = ctx.pick(1200, 20000)
+    n = ctx.pick(1200, 80000)
     for i in range(n):
         if not ctx.mine(i):
             continue
